@@ -347,7 +347,7 @@ def run_portfolio(cur, backends, tail, timeout, cwd):
         out.close()
     dt = time.time() - t0
     if winner: return winner[0], winner[1], winner[2], dt, winner[3]
-    if time.time() - t0 >= timeout: return -9, last[1], 'TIMEOUT', dt, '+'.join(backends)
+    if time.time() - t0 >= timeout: return -9, last[1], 'TIMEOUT', dt, backends[0]
     return last[0], last[1], last[2], dt, last[3]
 
 
